@@ -95,6 +95,7 @@ T_KINDS = (
        for p in (3, 2) for d in ('up', 'down', 'rand')]
     + [dict(kind='periodic_gaussian_t_profile', direction=d, pnum=3, jitter=False) for d in ('up', 'down')]
     + [dict(kind='periodic_gaussian_t_profile', direction='down', pnum=3, jitter=False, deep=True)]
+    + [dict(kind='periodic_gaussian_t_profile', direction='up', pnum=pn, jitter=False, negphase=True) for pn in (1, 3)]
     + [dict(kind='custom'), dict(kind='array'), dict(kind='list'), dict(kind='float'), dict(kind='int')]
 )
 WIDTHS = [0.3, 1.0, 2.5]
@@ -233,6 +234,9 @@ def concretise(case, fs, ts):
         tsp = dict(kind=k, pulse_width=1.2 * dt, period=2.5 * dt, phase=0.3 * dt,
                    pulse_offset_width=(0.4 * dt if t['jitter'] else 0), pulse_direction=t['direction'],
                    pnum=t['pnum'], amplitude=0.8, level=1.0, min_level=0.3, seed=2000 + 13 * seed)
+        if t.get('negphase'):
+            # a delayed pulse train: the phase is below -period/4, so the first rows lie before the first pulse centre
+            tsp.update(phase=-0.9 * dt)
         if t.get('deep'):
             # pulses deeper than the baseline, floor left at its documented default of 0
             tsp.update(amplitude=1.6, min_level=None)
